@@ -34,8 +34,9 @@ func refIPs(raw []byte) string {
 	return strings.Join(parts, ",")
 }
 
-// RFC 2132 section 2: trailing NULs are deleted by the receiver. The library
-// does so for HostName, BootFileNameOption and TFTPServerName only (trim).
+// RFC 2132 section 2: trailing NULs of NVT-ASCII options (12, 15, 17, 56, 66,
+// 67) are deleted by the receiver (trim); option 60 (class identifier) is
+// opaque octets and is returned as sent.
 func refStr(raw []byte, trim bool) string {
 	if raw == nil {
 		return "-"
@@ -108,15 +109,51 @@ func refCodes(raw []byte) string {
 	return strings.Join(parts, ",")
 }
 
-// RFC 3046 sub-options: code, length, value, tiling the field. As in the
-// DHCP options field the library skips code 0 (pad) and stops at code 255
-// (end); repeated sub-options are concatenated (RFC 3396 style).
+func showSubOpts(m map[int][]byte) string {
+	keys := []int{}
+	for k := range m {
+		keys = append(keys, k)
+	}
+	sort.Ints(keys)
+	parts := make([]string, len(keys))
+	for i, k := range keys {
+		parts[i] = strconv.Itoa(k) + ":" + hx(m[k])
+	}
+	return "{" + strings.Join(parts, ",") + "}"
+}
+
+// RFC 3046 read as written: SubOpt/Len/Value tuples tiling the field exactly;
+// no pad and no end code (0 and 255 are ordinary sub-option codes); repeated
+// sub-options are concatenated (RFC 3396 style). This is the reference.
 func refRelay(raw []byte) string {
 	if raw == nil {
 		return "nil"
 	}
 	m := map[int][]byte{}
-	seen := map[int]bool{}
+	for i := 0; i < len(raw); {
+		if i+1 >= len(raw) {
+			return "nil"
+		}
+		c, l := int(raw[i]), int(raw[i+1])
+		if i+2+l > len(raw) {
+			return "nil"
+		}
+		m[c] = append(append([]byte{}, m[c]...), raw[i+2:i+2+l]...)
+		i += 2 + l
+	}
+	return showSubOpts(m)
+}
+
+// The options-field grammar the library applies to option 82 (known finding
+// acc-RelayAgentInfo-pad-end): octet 0 in code position is a pad, 255 ends the
+// list. Used ONLY to classify a difference from refRelay: a result that
+// equals this reading differs from the RFC only because of a 0/255 octet at a
+// sub-option boundary.
+func relayPadEndReading(raw []byte) string {
+	if raw == nil {
+		return "nil"
+	}
+	m := map[int][]byte{}
 	for i := 0; i < len(raw); {
 		c := int(raw[i])
 		if c == 0 {
@@ -133,20 +170,10 @@ func refRelay(raw []byte) string {
 		if i+2+l > len(raw) {
 			return "nil"
 		}
-		m[c] = append(m[c], raw[i+2:i+2+l]...)
-		seen[c] = true
+		m[c] = append(append([]byte{}, m[c]...), raw[i+2:i+2+l]...)
 		i += 2 + l
 	}
-	keys := []int{}
-	for k := range seen {
-		keys = append(keys, k)
-	}
-	sort.Ints(keys)
-	parts := make([]string, len(keys))
-	for i, k := range keys {
-		parts[i] = strconv.Itoa(k) + ":" + hx(m[k])
-	}
-	return "{" + strings.Join(parts, ",") + "}"
+	return showSubOpts(m)
 }
 
 // RFC 3004: one or more (length >= 1, data) instances tiling the value.
@@ -550,7 +577,11 @@ func checkLineC17(line string) (what, class string, judged bool) {
 		}
 		got := safeExec(streams["v4acc"], line)
 		if got != "ok "+want {
-			return fmt.Sprintf("%s() = %q, reference interpretation of the raw value = %q", a.name, strings.TrimPrefix(got, "ok "), want), "acc-" + a.name, true
+			class := "acc-" + a.name
+			if a.kind == "relay" && got == "ok "+relayPadEndReading(raw) {
+				class += "-pad-end"
+			}
+			return fmt.Sprintf("%s() = %q, reference interpretation of the raw value = %q", a.name, strings.TrimPrefix(got, "ok "), want), class, true
 		}
 		return "", "", true
 	case "v4setget":
@@ -578,6 +609,7 @@ func checkLineC17(line string) (what, class string, judged bool) {
 func oracleC17(r *Rng, n int, thorough bool, seeds []string) *OracleResult {
 	res := &OracleResult{Tags: map[string]int{}}
 	seen := map[uint64]struct{}{}
+	padEndKept := 0
 	run := func(line string, tags []string) {
 		what, class, judged := checkLineC17(line)
 		if !judged {
@@ -592,7 +624,18 @@ func oracleC17(r *Rng, n int, thorough bool, seeds []string) *OracleResult {
 			seen[hashStr(line)] = struct{}{}
 		}
 		if what != "" {
-			res.fail(Failure{Oracle: "c17", Input: line, What: what, Class: class})
+			if strings.HasSuffix(class, "-pad-end") {
+				// known finding: counted, but only a few kept so that they
+				// cannot crowd other failures out of the (capped) list
+				res.NFailures++
+				res.Tags["known:"+class]++
+				if padEndKept < 3 {
+					padEndKept++
+					res.Failures = append(res.Failures, Failure{Oracle: "c17", Input: line, What: what, Class: class})
+				}
+			} else {
+				res.fail(Failure{Oracle: "c17", Input: line, What: what, Class: class})
+			}
 		}
 		if len(res.Samples) < 3 {
 			res.Samples = append(res.Samples, line)
@@ -607,6 +650,8 @@ func oracleC17(r *Rng, n int, thorough bool, seeds []string) *OracleResult {
 	// fixed regression inputs (past findings and the classic off-by-ones)
 	for _, l := range []string{
 		"v4acc RelayAgentInfo 1 0102616202 0 -",
+		"v4acc RelayAgentInfo 1 01026162ff0909 0 -", // known finding acc-RelayAgentInfo-pad-end
+		"v4acc DomainName 1 6100 0 -",
 		"v4acc RequestedIPAddress 1 0a00000105 0 -",
 		"v4acc IPAddressLeaseTime 1 000e10 5 -",
 		"v4acc ClasslessStaticRoute 1 210a000000010a000001 0 -",
